@@ -269,6 +269,19 @@ pub fn replay(sink: &Sink, args: &Args) {
         };
         let k = v["K"].as_u64().unwrap() as usize;
         let st = v["st"].as_bool().unwrap();
+        if v["tag"].as_str() == Some("REPLAY-EXPORT") {
+            // a finished graph of the export model: hand it to the real exports, the trace spec judges what they write
+            let key = format!("E|{}|{}|{}", k, st, v["nodes"]);
+            if !seen.insert(key) {
+                continue;
+            }
+            let reads: Vec<Vec<u8>> = v["inp"].as_array().map(|a| a.iter().map(jbytes).collect()).unwrap_or_default();
+            let inp = GInput { reads, k, stranded: st, thr: 1, mode: Mode::Sum, fam: "tlc-export" };
+            let nodes = nodes_from_json(&v["nodes"]);
+            let tmpdir = std::path::Path::new(&args.get("out", "")).parent().map(|p| p.to_string_lossy().to_string()).unwrap_or_else(|| ".".into());
+            with_kmer!(k, ev_export(sink, &inp, &nodes, &tmpdir));
+            continue;
+        }
         let rows = rows_from_json(&v["table"]);
         let key = format!("{}|{}|{}", k, st, rows_json(&rows));
         if !seen.insert(key) {
